@@ -439,7 +439,7 @@ Section OpSaveProofs.
   Proof.
     destruct o as [a|a c|a]; simpl.
     - split; [discriminate|reflexivity].
-    - destruct (contains colon (c_user c)); simpl; split; try discriminate; try reflexivity.
+    - destruct (put_accepts a c); simpl; split; try discriminate; try reflexivity.
       intros _. eexists. reflexivity.
     - destruct (lookup a (m_cache (st_mem st))); simpl; split; try discriminate; try reflexivity.
       intros _. eexists. reflexivity.
